@@ -5,7 +5,8 @@ usage: writer.py '<json spec>'
 spec: {"root": artap root, "db": path, "log": side-log path, "scenario": "serial"|"parallel"|"nsga2"|"epsmoea"|"omopso",
        "payload": "small"|"big"|"huge", "inject": null | {"kind":"A","k":int} | {"kind":"B","j":int,"phase":"before"|"after"}
                  | {"kind":"E","j":int} | {"kind":"F","j":int,"phase":"before"|"after"},
-       "slow_ms": float, "model_s": float}
+       "slow_ms": float, "model_s": float, "fail_call": int (that objective call raises RuntimeError: a transient
+       failure, the design is re-sampled and retried)}
 The harness owns the clock: time.time / perf_counter / monotonic are shifted by an offset that every objective call
 advances by model_s seconds (a model that takes that long to compute, without the test taking that long).
 Side log (os.write, O_APPEND, survives any kind of death): JSON lines TRY/ACK per synchronisation attempt with the
@@ -135,6 +136,8 @@ class P(Problem):
         if spec.get("slow_ms"):
             time.sleep(spec["slow_ms"] / 1000.0)
         CLOCK[0] += spec.get("model_s") or 0.0
+        if spec.get("fail_call") and STATE["obj"] == spec["fail_call"]:
+            raise RuntimeError("the solver diverged (injected transient failure)")
         individual.custom["blob"] = BLOB + str(STATE["obj"])
         return f(individual.vector)
 
